@@ -11,12 +11,14 @@ RULE = ("real Router with recording devices (one of them a real generated Driver
         "(register device/client, unregister, re-register, enableBLOB x 3 values x device names) and the whole probe suite "
         "(every client-originated kind x device names {registered names, none, unknown} x every sender incl. anonymous; every "
         "device-originated kind) is applied and the exact multiset of deliveries compared; plus seeded random histories of "
-        "length <= 60 in a 5x5 universe. This check judges client-originated messages: exactly-once to accepting devices, none "
+        "length <= 60 in a 5x5 universe, and seeded RE-ENTRANT histories in which 1..3 endpoints send a message of their own from inside "
+        "their delivery callback (each at most once per operation, never a state-changing message, so the expected multiset is the "
+        "closure computed by the model whatever the router's iteration order). This check judges client-originated messages: exactly-once to accepting devices, none "
         "to others, never back to the sender, no device-bound kind to any client. non-trivial = every compared operation; "
         "distinct = hash(model state [and path, when reached by a non-shortest path], operation)")
 ASSUMPTIONS = ["which clients the getProperties relay reaches is decided by C05",
                "enableBLOB from an unregistered sender is outside the quantifier"]
-REQUIRED_EVENTS = ["states", "transitions", "client_originated_messages", "deliveries_observed"]
+REQUIRED_EVENTS = ["states", "transitions", "client_originated_messages", "deliveries_observed", "reentrant_operations", "reentrant_sends_from_inside_a_delivery"]
 EXHAUSTIVE_NOTE = "quick: universe 2 devices (A, real driver B) + catch-all x 2 clients, complete; thorough: 3 devices x 3 clients, complete"
 QUICK_SHARDS = 4
 JUDGE = "client"
@@ -38,6 +40,9 @@ def run(ctx):
     for i in range(nh):
         if ctx.mine(i):
             X.random_history(ctx, big, JUDGE, i, 60)
+    for i in range(nh):
+        if ctx.mine(i):
+            X.reactive_history(ctx, big, JUDGE, i)
 
 
 def exhaustive(ctx):
@@ -48,6 +53,9 @@ def replay(ctx, case):
     devs, clis = case["uni"] if "uni" in case else (["A", "B", "*"], ["c0", "c1", "c2"])
     real = ("B",) if "B" in devs else ("D1", "D3")
     uni = X.Universe(devs, clis, real_drivers=real)
+    if case.get("mode") == "reactive":
+        X.reactive_history(ctx, uni, JUDGE, case["i"])
+        return
     X.replay_history(ctx, uni, JUDGE, case["history"], case["op"])
     ctx.distinct.update([1, 2])
     ctx.evaluations += 1
